@@ -129,6 +129,132 @@ fn verif_path_amplification_finding_witness() {
     strict_step(true);
 }
 
+// ---------------------------------------------------------------------------------------------
+// (c) the per-datagram gate of the transmit loop, Path::can_transmit, with a PACING congestion
+//     controller (the mock of endpoint::testing never reports a departure time): whatever the
+//     pacer says - no departure time, one in the past, one in the future - a path at the
+//     amplification limit may not start another datagram, and otherwise the pacer decides.
+#[derive(Clone, Debug)]
+struct PacedController {
+    edt: Option<Timestamp>,
+}
+
+impl s2n_quic_core::recovery::CongestionController for PacedController {
+    type PacketInfo = ();
+    fn congestion_window(&self) -> u32 {
+        u32::MAX
+    }
+    fn bytes_in_flight(&self) -> u32 {
+        0
+    }
+    fn is_congestion_limited(&self) -> bool {
+        false
+    }
+    fn requires_fast_retransmission(&self) -> bool {
+        false
+    }
+    fn on_packet_sent<Pub: congestion_controller::Publisher>(&mut self, _: Timestamp, _: usize, _: Option<bool>, _: &RttEstimator, _: &mut Pub) {}
+    fn on_rtt_update<Pub: congestion_controller::Publisher>(&mut self, _: Timestamp, _: Timestamp, _: &RttEstimator, _: &mut Pub) {}
+    fn on_ack<Pub: congestion_controller::Publisher>(&mut self, _: Timestamp, _: usize, _: (), _: &RttEstimator, _: &mut dyn s2n_quic_core::random::Generator, _: Timestamp, _: &mut Pub) {}
+    fn on_packet_lost<Pub: congestion_controller::Publisher>(&mut self, _: u32, _: (), _: bool, _: bool, _: &mut dyn s2n_quic_core::random::Generator, _: Timestamp, _: &mut Pub) {}
+    fn on_explicit_congestion<Pub: congestion_controller::Publisher>(&mut self, _: u64, _: Timestamp, _: &mut Pub) {}
+    fn on_mtu_update<Pub: congestion_controller::Publisher>(&mut self, _: u16, _: &mut Pub) {}
+    fn on_packet_discarded<Pub: congestion_controller::Publisher>(&mut self, _: usize, _: &mut Pub) {}
+    fn earliest_departure_time(&self) -> Option<Timestamp> {
+        self.edt
+    }
+}
+
+#[derive(Debug)]
+struct PacedEndpoint;
+
+impl congestion_controller::Endpoint for PacedEndpoint {
+    type CongestionController = PacedController;
+    fn new_congestion_controller(&mut self, _: congestion_controller::PathInfo) -> PacedController {
+        PacedController { edt: None }
+    }
+}
+
+/// endpoint::testing::Server with the pacing controller above
+#[derive(Debug)]
+struct PacedServer;
+
+impl endpoint::Config for PacedServer {
+    type CongestionControllerEndpoint = PacedEndpoint;
+    type TLSEndpoint = s2n_quic_core::crypto::tls::testing::Endpoint;
+    type PathHandle = RemoteAddress;
+    type Connection = connection::Implementation<Self>;
+    type ConnectionLock = std::sync::Mutex<Self::Connection>;
+    type EndpointLimits = endpoint::testing::Limits;
+    type ConnectionIdFormat = connection::id::testing::Format;
+    type StatelessResetTokenGenerator = s2n_quic_core::stateless_reset::token::testing::Generator;
+    type RandomGenerator = s2n_quic_core::random::testing::Generator;
+    type TokenFormat = s2n_quic_core::token::testing::Format;
+    type ConnectionLimits = s2n_quic_core::connection::limits::Limits;
+    type Mtu = mtu::Config;
+    type StreamManager = crate::stream::DefaultStreamManager;
+    type ConnectionCloseFormatter = s2n_quic_core::connection::close::Development;
+    type EventSubscriber = s2n_quic_core::event::testing::Subscriber;
+    type PathMigrationValidator = migration::allow_all::Validator;
+    type PacketInterceptor = s2n_quic_core::packet::interceptor::Disabled;
+    type DatagramEndpoint = s2n_quic_core::datagram::Disabled;
+    type DcEndpoint = s2n_quic_core::dc::testing::MockDcEndpoint;
+
+    fn context(&mut self) -> endpoint::Context<'_, Self> {
+        unimplemented!()
+    }
+
+    const ENDPOINT_TYPE: endpoint::Type = endpoint::Type::Server;
+}
+
+#[cfg_attr(kani, kani::proof)]
+#[cfg_attr(kani, kani::unwind(2))]
+fn verif_path_can_transmit_gate() {
+    use core::time::Duration;
+    use s2n_quic_core::connection::limits::ANTI_AMPLIFICATION_MULTIPLIER;
+    use s2n_quic_core::time::{Clock as _, NoopClock};
+    let base = NoopClock.get_time();
+    // departure time and current time as 16-bit microsecond offsets (Timestamp arithmetic is a
+    // measured solver wall beyond that)
+    let e: u16 = kani::any();
+    let t: u16 = kani::any();
+    let has_edt: bool = kani::any();
+    let edt = base + Duration::from_micros(e as u64);
+    let now = base + Duration::from_micros(t as u64);
+    let mut path: Path<PacedServer> = Path::new(
+        Default::default(),
+        connection::PeerId::try_from_bytes(&[]).unwrap(),
+        connection::LocalId::TEST_ID,
+        RttEstimator::new(Duration::from_millis(30)),
+        PacedController { edt: if has_edt { Some(edt) } else { None } },
+        true,
+        mtu::Config::default(),
+        ANTI_AMPLIFICATION_MULTIPLIER,
+        0,
+    );
+    let allowance: u32 = kani::any();
+    path.state = State::AmplificationLimited { tx_allowance: Counter::new(allowance) };
+    let limited = path.at_amplification_limit();
+    assert!(limited == (allowance == 0));
+    let can = path.can_transmit(now);
+    if limited {
+        // RFC 9000 8.1: at the limit nothing is started, paced or not
+        assert!(!can);
+        kani::cover!(has_edt && e < t, "at the limit with an elapsed departure time");
+    } else if !has_edt {
+        assert!(can);
+    } else if e <= t {
+        // the departure time has been reached
+        assert!(can);
+        kani::cover!(true, "paced packet released");
+    } else if e as u32 > t as u32 + 1000 {
+        // more than the timer granularity ahead: held back
+        assert!(!can);
+        kani::cover!(true, "paced packet held back");
+    }
+    core::mem::forget(path);
+}
+
 // ---- generated by tools/fixup.py: native replay entry ----
 #[cfg(not(kani))]
 #[test]
@@ -137,5 +263,6 @@ fn verif_replay() {
         ("verif_path_amplification_books", verif_path_amplification_books),
         ("verif_path_amplification_strict_outside_finding", verif_path_amplification_strict_outside_finding),
         ("verif_path_amplification_finding_witness", verif_path_amplification_finding_witness),
+        ("verif_path_can_transmit_gate", verif_path_can_transmit_gate),
     ]);
 }
